@@ -151,6 +151,12 @@ def ext(work, tier, seed):
     vh = common.build_vh(work)
     tr, stats = common.vh_gen(work, vh, "ext", seed, tier)
     viol, tstates, n = validate(work, "Trace_Ext", tr, stats, procs=6)
+    tr2, stats2 = common.vh_gen(work, vh, "ztp", seed, tier)
+    viol2, tstates2, n2 = validate(work, "Trace_Ext", tr2, stats2, procs=6)
+    viol, tstates, n = viol + viol2, tstates + tstates2, n + n2
+    for k in ("lines", "distinct", "distinct_nontrivial"):
+        stats[k] += stats2[k]
+    stats["classes"].update(stats2["classes"])
     for desc, _ in viol[:20]:
         common.log("EXTENDED-MISMATCH " + desc[:500])
     cov = dict(states=tstates, transitions=tstates, traces_validated_against_impl=n, evaluations=stats["lines"], distinct=stats["distinct"],
@@ -158,7 +164,8 @@ def ext(work, tier, seed):
                samples=[common.trim_sample(s) for s in stats["samples"][:3]],
                rule="netboot.GetNetConfFromPacketv6/v4, dhcpv6.ExtractMAC, the DHCPv6 option-container accessors (DNS, search list, boot file URL, "
                     "merged ORO, NTP servers, IsNetboot, IsOptionRequested) and dhcpv4 IsOptionRequested on generated messages with several "
-                    "instances of the relevant options; results compared with the operators of spec/Extract.tla")
+                    "instances of the relevant options; results compared with the operators of spec/Extract.tla; "
+                    "ztpv4/ztpv6 ParseVendorData on vendor strings drawn from the grammar of their case tables (spec/Ztp.tla)")
     common.write_evidence("EXT", tier, seed, cov, 0, 0, ["extended conformance: informational, not part of any property's verdict"])
     common.log("EXT lines=%d mismatches=%d" % (n, len(viol)))
     return 0
